@@ -218,10 +218,9 @@ func (l *LockServer) Lock(ctx context.Context, name string, size *int32, lockTim
 
 // Unlock surprisingly, unlocks a lock...
 func (l *LockServer) Unlock(ctx context.Context, name string, key string) (bool, error) {
-	sessionId, ok := l.SessionId(ctx)
-	if !ok {
-		return false, ErrSessionDoesNotExist
-	}
+	// The caller's session is not needed: a lock is unlocked by name and key, and is removed
+	// from whichever session holds it. The admin IPC unlocks without a session.
+	sessionId, _ := l.SessionId(ctx)
 
 	ctxLog := log.FromContextOrDefault(ctx)
 	ctxLog.Info(
